@@ -790,6 +790,15 @@ pub(super) fn bl(
         // get operands
         let dst = operand_load(block, &instruction.operands()[0], 64)?;
 
+        // the target is read before the link register is written (blr x30)
+        let dst = if dst.scalars().is_empty() {
+            dst
+        } else {
+            let target = temp0(instruction, 64);
+            block.assign(target.clone(), dst);
+            target.into()
+        };
+
         block.assign(
             scalar!("x30"),
             il::expr_const(instruction.address().wrapping_add(4), 64),
